@@ -209,7 +209,9 @@ fn lex_block_string(lexer: &mut Lexer<'_, IsographLangTokenKind>) -> bool {
                 return true;
             }
             BlockStringToken::EscapedTripleQuote | BlockStringToken::Other => {}
-            BlockStringToken::Error => unreachable!(),
+            // A character outside of the ranges matched by `Other` (e.g. a control
+            // character, or one above U+FFFF): not a valid block string.
+            BlockStringToken::Error => return false,
         }
     }
     false
